@@ -1,1 +1,261 @@
-import Gene.Engine
+import Gene.Props.EngineSim
+import Gene.Props.C05
+/-! C01 — scan reports exactly the rules whose conditions hold (and C06 / C09 / C10 / C12 corollaries).
+
+    `verdict x ev e i` is the denotational verdict of rule `i` on the event: defined by recursion over
+    the load order only (`Memo.specV`): rule `i`'s condition evaluated with every `rule(d)` operand standing
+    for the verdict of `d`, an erroring or missing dependency being an error (`verdict_eq`). No candidate
+    cache, dependency cache, DFS list or per-scan memo appears in it.
+
+    `C01_scan`: for every well-formed engine (`WfEngine`: what `Engine::try_from(Compiler)` builds) and every
+    event, `scan` never panics and
+      * the reported result is the aggregation of exactly the candidates — detection or filter rules
+        admitted by their match-on section for the event's (source, id) — whose verdict is `ok true`;
+      * an error is returned iff some candidate, or a rule in the dependency list of a candidate, has an
+        erroring verdict, and the rule the error names is one of those;
+      * the engine after the scan is well-formed again, and differs by the candidate cache only. -/
+set_option linter.unusedSimpArgs false
+namespace Gene.Props.C01
+open Gene M EngineSim
+
+variable (x : Ext) (event : Event)
+
+/-- the denotational verdict of rule `i` -/
+def verdict (e : Engine) (i : Nat) : Memo.Res := Memo.specV (absEv x event e) i
+
+/-- **C06 (rule(x) = x's verdict).** The verdict of a rule is its condition evaluated against a memo in
+    which each earlier rule `d` has exactly its own verdict (present iff that verdict is not an error). -/
+theorem verdict_eq (e : Engine) (hw : WfEngine e) (i : Nat) :
+    verdict x event e i = absEv x event e i (fun d => (verdict x event e d).toOpt) :=
+  Memo.specV_eq (absEng e) (absEv x event e) (absEng_wf hw.toWfCore) (absEv_local x event hw) i
+
+/-! ### candidates -/
+theorem btInsertCand_vals (k : Nat × Str) (i : Nat) (l : List ((Nat × Str) × Nat)) (hk : ∀ p ∈ l, p.1 ≠ k) (j : Nat) :
+    j ∈ (btInsertCand k i l).map Prod.snd ↔ j = i ∨ j ∈ l.map Prod.snd := by
+  induction l with
+  | nil => simp [btInsertCand]
+  | cons p l ih =>
+    obtain ⟨k', i'⟩ := p
+    have hne : (k == k') = false := by
+      have := hk (k', i') (by simp)
+      simp only [ne_eq] at this
+      cases hb : k == k' with
+      | false => rfl
+      | true => exact absurd (by simpa using hb : k = k').symm this
+    simp only [btInsertCand, hne, Bool.false_eq_true, if_false]
+    split
+    · simp
+    · simp only [List.map_cons, List.mem_cons]
+      rw [ih (fun p hp => hk p (by simp [hp]))]
+      constructor
+      · rintro (h | h | h)
+        · exact Or.inr (Or.inl h)
+        · exact Or.inl h
+        · exact Or.inr (Or.inr h)
+      · rintro (h | h | h)
+        · exact Or.inr (Or.inl h)
+        · exact Or.inl h
+        · exact Or.inr (Or.inr h)
+
+theorem btInsertCand_keys (k : Nat × Str) (i : Nat) (l : List ((Nat × Str) × Nat)) (p : (Nat × Str) × Nat)
+    (hp : p ∈ btInsertCand k i l) : p = (k, i) ∨ p ∈ l := by
+  induction l with
+  | nil => simp [btInsertCand] at hp; exact Or.inl hp
+  | cons q l ih =>
+    obtain ⟨k', i'⟩ := q
+    simp only [btInsertCand] at hp
+    split at hp
+    · simp only [List.mem_cons] at hp
+      rcases hp with h | h
+      · exact Or.inl h
+      · exact Or.inr (List.mem_cons_of_mem _ h)
+    · split at hp
+      · simp only [List.mem_cons] at hp
+        rcases hp with h | h | h
+        · exact Or.inl h
+        · exact Or.inr (by simp [h])
+        · exact Or.inr (List.mem_cons_of_mem _ h)
+      · simp only [List.mem_cons] at hp
+        rcases hp with h | h
+        · exact Or.inr (by simp [h])
+        · rcases ih h with h' | h'
+          · exact Or.inl h'
+          · exact Or.inr (List.mem_cons_of_mem _ h')
+
+def isCand (e : Engine) (src : Str) (id : Int) (i : Nat) : Prop :=
+  ∃ r, e.rules[i]? = some r ∧ (CompiledRule.isFilter r || CompiledRule.isDetection r) = true ∧
+    canMatchOn r.includeEvents r.excludeEvents src id = true
+
+/-- **candidates = detection / filter rules admitted for (source, id)**, each exactly once is not needed:
+    membership is what the scan theorem uses -/
+theorem mem_candidates (e : Engine) (hw : WfEngine e) (src : Str) (id : Int) (i : Nat) :
+    i ∈ candidates e src id ↔ isCand e src id i := by
+  unfold candidates
+  simp only [List.mem_reverse]
+  -- fold invariant over a prefix of the range
+  have key : ∀ (m : Nat), m ≤ e.rules.length →
+      let tmp := (List.range m).foldl (candStep e src id) []
+      (∀ j, j ∈ tmp.map Prod.snd ↔ j < m ∧ isCand e src id j) ∧
+      (∀ p ∈ tmp, ∃ r, e.rules[p.2]? = some r ∧ p.1 = (r.severity, r.name) ∧ p.2 < m) := by
+    intro m
+    induction m with
+    | zero => intro _; simp
+    | succ m ih =>
+      intro hm
+      have ihm := ih (by omega)
+      simp only [List.range_succ, List.foldl_append, List.foldl_cons, List.foldl_nil]
+      generalize hT : (List.range m).foldl _ [] = tmp at ihm ⊢
+      obtain ⟨ih1, ih2⟩ := ihm
+      have hr : e.rules[m]? = some e.rules[m] := by
+        have : m < e.rules.length := by omega
+        simp [this]
+      simp only [candStep, hr]
+      by_cases hc : ((CompiledRule.isFilter e.rules[m] || CompiledRule.isDetection e.rules[m]) &&
+          canMatchOn e.rules[m].includeEvents e.rules[m].excludeEvents src id) = true
+      · simp only [hc, if_true]
+        have hfresh : ∀ p ∈ tmp, p.1 ≠ (e.rules[m].severity, e.rules[m].name) := by
+          intro p hp heq
+          obtain ⟨r, hr', hk, hlt⟩ := ih2 p hp
+          rw [hk] at heq
+          simp only [Prod.mk.injEq] at heq
+          have := name_unique hw.toWfCore hr' hr heq.2
+          omega
+        constructor
+        · intro j
+          rw [btInsertCand_vals _ _ _ hfresh, ih1 j]
+          simp only [Bool.and_eq_true] at hc
+          constructor
+          · rintro (rfl | ⟨h1, h2⟩)
+            · exact ⟨by omega, e.rules[j], hr, hc.1, hc.2⟩
+            · exact ⟨by omega, h2⟩
+          · rintro ⟨h1, h2⟩
+            by_cases hjm : j = m
+            · exact Or.inl hjm
+            · exact Or.inr ⟨by omega, h2⟩
+        · intro p hp
+          rcases btInsertCand_keys _ _ _ p hp with rfl | hp'
+          · exact ⟨e.rules[m], hr, rfl, Nat.lt_succ_self m⟩
+          · obtain ⟨r, h1, h2, h3⟩ := ih2 p hp'
+            exact ⟨r, h1, h2, by omega⟩
+      · simp only [hc, Bool.false_eq_true, if_false]
+        constructor
+        · intro j
+          rw [ih1 j]
+          constructor
+          · rintro ⟨h1, h2⟩; exact ⟨by omega, h2⟩
+          · rintro ⟨h1, h2⟩
+            refine ⟨?_, h2⟩
+            by_cases hjm : j = m
+            · subst hjm
+              obtain ⟨r, hr', hc1, hc2⟩ := h2
+              rw [hr] at hr'; cases hr'
+              exfalso; apply hc; simp [hc1, hc2]
+            · omega
+        · intro p hp
+          obtain ⟨r, h1, h2, h3⟩ := ih2 p hp
+          exact ⟨r, h1, h2, by omega⟩
+  have := (key e.rules.length (Nat.le_refl _)).1 i
+  rw [this]
+  constructor
+  · rintro ⟨_, h⟩; exact h
+  · intro h
+    have h' := h
+    obtain ⟨r, hr, _⟩ := h'
+    exact ⟨(List.getElem?_eq_some_iff.mp hr).1, h⟩
+
+theorem candidates_lt (e : Engine) (hw : WfEngine e) (src : Str) (id : Int) :
+    ∀ i ∈ candidates e src id, i < e.rules.length := by
+  intro i hi
+  obtain ⟨r, hr, _⟩ := (mem_candidates e hw src id i).mp hi
+  exact (List.getElem?_eq_some_iff.mp hr).1
+
+
+/-! ### the candidate cache is unobservable -/
+theorem wf_cache (e : Engine) (hw : WfEngine e) (cache' : List ((Str × Int) × List Nat))
+    (hc : ∀ k l, cache'.lookup k = some l → l = candidates e k.1 k.2) :
+    WfEngine { e with rulesCache := cache' } :=
+  { toWfCore := ⟨hw.names_ok, hw.deps_back⟩, deps_cover := hw.deps_cover, deps_cache := hw.deps_cache, cache_ok := hc,
+    sev_ok := hw.sev_ok }
+
+theorem cachedRules_spec (e : Engine) (hw : WfEngine e) (src : Str) (id : Int) :
+    ∃ cache', Engine.cachedRules e src id = ({ e with rulesCache := cache' }, candidates e src id) ∧
+      ∀ k l, cache'.lookup k = some l → l = candidates e k.1 k.2 := by
+  unfold Engine.cachedRules
+  cases hl : e.rulesCache.lookup (src, id) with
+  | some l =>
+    have := hw.cache_ok (src, id) l hl
+    exact ⟨e.rulesCache, by simp only [this], hw.cache_ok⟩
+  | none =>
+    refine ⟨((src, id), candidates e src id) :: e.rulesCache, rfl, ?_⟩
+    intro k l hk
+    simp only [List.lookup_cons] at hk
+    cases hb : k == (src, id) with
+    | true =>
+      rw [hb] at hk
+      simp only [Option.some.injEq] at hk
+      have : k = (src, id) := by simpa using hb
+      rw [← hk, this]
+    | false =>
+      rw [hb] at hk
+      exact hw.cache_ok k l hk
+
+/-- what a scan delivers, for any well-formed engine -/
+structure ScanSpec (e : Engine) (sr : Option ScanResult) (err : Option (Str × EvalErr)) : Prop where
+  /-- the result aggregates exactly the candidates whose verdict is `ok true` -/
+  result : sr = srFold (((candidates e event.source event.id).filter
+              (fun i => verdict x event e i == .ok true)).filterMap (fun i => e.rules[i]?))
+  /-- an error is returned iff a candidate, or a rule in a candidate's dependency list, has an erroring verdict -/
+  error_iff : err.isSome = true ↔
+      ∃ i ∈ candidates e event.source event.id, ∃ y, (y = i ∨ y ∈ Dfs.dfsDepSearch (absEng e) i) ∧
+        verdict x event e y = .err
+  /-- the rule named by the error really failed -/
+  error_names : ∀ nm k, err = some (nm, k) →
+      ∃ i ∈ candidates e event.source event.id, ∃ y, (y = i ∨ y ∈ Dfs.dfsDepSearch (absEng e) i) ∧
+        verdict x event e y = .err ∧ ∃ r, e.rules[y]? = some r ∧ r.name = nm
+
+/-- **C01 / C09 / C10 / C12.** -/
+theorem C01_scan (e : Engine) (hw : WfEngine e) :
+    ∃ cache' sr err,
+      Engine.scan x e event = ({ e with rulesCache := cache' }, .done sr err) ∧
+      WfEngine { e with rulesCache := cache' } ∧ ScanSpec x event e sr err := by
+  obtain ⟨cache', hcr, hc⟩ := cachedRules_spec e hw event.source event.id
+  have hw' := wf_cache e hw cache' hc
+  let e' : Engine := { e with rulesCache := cache' }
+  have hcl := candidates_lt e hw event.source event.id
+  obtain ⟨c', hloop, hR, hE, hS⟩ := scanLoop_sim x event (e := e') hw' (candidates e event.source event.id) hcl
+    ⟨[], [], []⟩ {} R_nil ⟨by simp, by intro nm k h; cases h⟩ ⟨rfl, by intro s h; cases h⟩
+  have hinv := Scan.scan_correct (absEng e') (absEv x event e') (absEng_wf hw'.toWfCore) (absEv_local x event hw')
+    (candidates e event.source event.id)
+  refine ⟨cache', c'.sr, c'.lastErr, ?_, hw', ?_⟩
+  · unfold Engine.scan
+    simp only [hcr]
+    rw [hloop]
+  · -- the abstraction of `e'` is the abstraction of `e`
+    have hS1 := hS.1
+    have hm := hinv.matched
+    have he := hinv.errs
+    unfold Scan.scan at hm he
+    refine ⟨?_, ?_, ?_⟩
+    · rw [hS1, hm]; rfl
+    · rw [hE.1]
+      constructor
+      · intro hne
+        obtain ⟨y, hy⟩ := List.exists_mem_of_ne_nil _ hne
+        obtain ⟨i, hi, h1, h2⟩ := (he y).mp hy
+        exact ⟨i, hi, y, h1, h2⟩
+      · rintro ⟨i, hi, y, h1, h2⟩
+        have := (he y).mpr ⟨i, hi, h1, h2⟩
+        intro hnil; rw [hnil] at this; cases this
+    · intro nm k h
+      obtain ⟨y, hy, r, hr, hn⟩ := hE.2 nm k h
+      obtain ⟨i, hi, h1, h2⟩ := (he y).mp hy
+      exact ⟨i, hi, y, h1, h2, r, hr, hn⟩
+
+/-- **C09.** Scanning an engine that was built successfully never panics, whatever the event's getter
+    answers (the event is an arbitrary function from segment lists to optional `FieldValue`s) -/
+theorem C09_no_panic (e : Engine) (hw : WfEngine e) : ∀ site, (Engine.scan x e event).2 ≠ .panic site := by
+  intro site
+  obtain ⟨cache', sr, err, h, _, _⟩ := C01_scan x event e hw
+  rw [h]; intro hc; cases hc
+
+end Gene.Props.C01
